@@ -475,6 +475,12 @@ Proof.
     right. rewrite zmem_app, B. apply orb_true_r.
 Qed.
 
+Lemma xinv6_setcl_same : forall x, xinv6 x -> xinv6 (X5.set_cl x (X5.x_cl x)).
+Proof.
+  intros x (vst & GS & LS & A & SA & SB). exists vst. split; [exact GS|]. split; [exact LS|]. split; [|split; [exact SA | exact SB]].
+  apply (AG_same x _ vst vst); try reflexivity; [exact (ag_cl _ _ A) | exact A].
+Qed.
+
 (* ------------------------------------------------------------------ every admitted event *)
 Theorem xinv6_step : forall x ev, ok6_ev x ev = true -> xinv6 x -> xinv6 (fst (X5.step x ev)).
 Proof.
@@ -484,7 +490,8 @@ Proof.
   destruct (c =? 40) eqn:C40.
   { cbn [orb] in OK. unfold ok5_ev in OK. rewrite C, C40 in OK. destruct a as [|a0 [|ts [|n r]]]; try discriminate OK. apply xinv6_report; auto. }
   destruct (c =? 41) eqn:C41.
-  { cbn [orb] in OK. unfold ok5_ev in OK. rewrite C, C40, C41 in OK. destruct a as [|n [|f [|z r]]]; try discriminate OK. apply xinv6_deliver; auto. }
+  { cbn [orb] in OK. unfold ok5_ev in OK. rewrite C, C40, C41 in OK. destruct a as [|n [|f [|rv [|z r]]]]; try discriminate OK.
+    destruct (deliver_to_cases x n f rv) as [E|[E|E]]; rewrite E; [apply xinv6_deliver; auto | apply xinv6_setcl_same; auto | exact I]. }
   cbn [orb] in OK.
   destruct (c =? 42). { destruct a as [|b [|z r]]; try discriminate OK. apply xinv6_delete; auto. }
   destruct (c =? 43). { destruct a as [|b [|z r]]; try discriminate OK. apply xinv6_undelete; auto. }
@@ -506,7 +513,8 @@ Proof.
   destruct (c <? 40) eqn:C. { destruct (step (X5.x_cl x) (c :: a)); exact NH. }
   destruct (c =? 40). { destruct a as [|a0 [|ts [|n r]]]; try discriminate OK. unfold X5.step_report.
     destruct (GC.check_for_garbage _ _ _ _) as [old gone]. destruct old; [destruct gone|]; exact NH. }
-  destruct (c =? 41). { destruct a as [|n [|f [|z r]]]; try discriminate OK. unfold X5.step_deliver. destruct (nth_error _ _); exact NH. }
+  destruct (c =? 41). { destruct a as [|n [|f [|rv [|z r]]]]; try discriminate OK.
+    destruct (deliver_to_cases x n f rv) as [E|[E|E]]; rewrite E; [unfold X5.step_deliver; destruct (nth_error _ _); exact NH | exact NH | exact NH]. }
   discriminate OK.
 Qed.
 
@@ -604,7 +612,8 @@ Section Intact.
       destruct old; [destruct gone|]; cbn [fst]; try exact K1;
         (destruct K1 as [(K1 & K2 & K3)|D]; [left; split; [exact K1|]; split; [exact K2|exact K3] | right; exact D]). }
     destruct (c =? 41) eqn:C41.
-    { cbn [orb] in OK. unfold ok5_ev in OK. rewrite C, C40, C41 in OK. destruct a as [|n [|f [|z r]]]; try discriminate OK.
+    { cbn [orb] in OK. unfold ok5_ev in OK. rewrite C, C40, C41 in OK. destruct a as [|n [|f [|rv [|z r]]]]; try discriminate OK.
+      destruct (deliver_to_cases x n f rv) as [EQ|[EQ|EQ]]; rewrite EQ; clear EQ; [| destruct K as [(K1 & K2 & K3)|D]; [left; split; [exact K1|]; split; [exact K2|exact K3] | right; exact D] | exact K].
       unfold X5.step_deliver. destruct (nth_error (X5.x_soup x) (Z.to_nat n)) as [i|] eqn:N; [|exact K]. cbn [fst].
       destruct K as [(K1 & K2 & K3)|D]; [left|right; exact D]. split; [exact K1|]. split; [exact K2|].
       intros t dv hs s Ft Dt Ins. rewrite <- (K3 t dv hs s Ft Dt Ins).
